@@ -49,7 +49,11 @@ def _cases(draw, tier):
         opts['crit'][0][2] = [draw(st.sampled_from([0, 1, 2, 3])),
                               draw(st.sampled_from([1, 2, 3]))]
     choices = draw(strategies.choice_lists) if mode != 'cbc' else []
-    return {'inst': inst, 'opts': opts, 'choices': choices, 'mode': mode, 'salt': salt}
+    decoy = _lp.draw_decoy(draw, inst)
+    _ret = {'inst': inst, 'opts': opts, 'choices': choices, 'mode': mode, 'salt': salt}
+    if decoy:
+        _ret['decoy'] = decoy
+    return _ret
 
 
 def strategy(tier):
